@@ -238,6 +238,7 @@ func (fx *FnExec) frameObligations(st *State, fr *frame, env *evalEnv, retName s
 type frameAllow struct {
 	whole bool
 	idx   []Term
+	sets  []string // conditions over q.f: "q.f is one of the allowed objects" (pointees(x))
 }
 
 func (fx *FnExec) frameCheck(st *State, fr *frame, env *evalEnv, retName string, modifies []Expr, initHeap map[string]Term, allocBound Term, kind string) {
@@ -277,11 +278,20 @@ func (fx *FnExec) frameFormula(st *State, name string, cur Term, allowed map[str
 	if isrt == "Int" {
 		// locations that existed at entry: objects up to the watermark and the
 		// field addresses -(base*1024+k) of such objects
-		conds = append(conds, "(<= q.f "+allocBound+")", "(> q.f (- (* (+ "+allocBound+" 1) 1024)))")
+		conds = append(conds, "(<= q.f "+allocBound+")", "(> q.f (- (* (+ "+allocBound+" 1) 1024)))", "(not (= q.f 0))")
 	}
 	if a != nil {
 		for _, ix := range a.idx {
 			conds = append(conds, "(not (= q.f "+ix+"))")
+		}
+	}
+	if any := allowed["*"]; any != nil && isrt == "Int" && !strings.HasPrefix(name, "ghost.") {
+		// pointee(p) targets: that object, in every field/cell/array/map heap
+		for _, ix := range any.idx {
+			conds = append(conds, "(not (= q.f "+ix+"))")
+		}
+		for _, set := range any.sets {
+			conds = append(conds, "(not "+set+")")
 		}
 	}
 	body := "(= (select " + cur + " q.f) (select " + init + " q.f))"
@@ -344,6 +354,48 @@ func (fx *FnExec) frameAllowed(env *evalEnv, modifies []Expr, initHeap map[strin
 			}
 		case *ECall:
 			switch x.Fn {
+			case "pointees":
+				// every object an element (slice) or value (map) of x points to
+				v := pre.eval(x.Args[0])
+				a := allowed["*"]
+				if a == nil {
+					a = &allow{}
+					allowed["*"] = a
+				}
+				target := func(e cval) Term {
+					if e.sort == "Iface" {
+						return "(ival " + e.t + ")"
+					}
+					return e.t
+				}
+				if v.sort == "Slice" {
+					es, et := pre.elemOf(v.typ)
+					mem := pre.heapGet("Mem."+sanitize(es), "(Array Int "+arrOf(es)+")")
+					arr := fx.winOf(es, fmt.Sprintf("(select %s (sptr %s))", mem, v.t), "(soff "+v.t+")")
+					el := cval{t: "(select " + arr + " q.pi)", sort: fx.realSort(es), typ: et}
+					a.sets = append(a.sets, "(exists ((q.pi Int)) (and (<= 0 q.pi) (< q.pi (slen "+v.t+")) (= q.f "+target(el)+")))")
+				} else if _, isMap := v.typ.Underlying().(*types.Map); isMap {
+					ks, vs, _ := pre.mapSorts(v)
+					inH := pre.heapGet(mapInName(ks, vs), "(Array Int (Array "+ks+" Bool))")
+					valH := pre.heapGet(mapValName(ks, vs), "(Array Int (Array "+ks+" "+vs+"))")
+					el := cval{t: "(select (select " + valH + " " + v.t + ") q.pk)", sort: fx.realSort(vs)}
+					a.sets = append(a.sets, "(exists ((q.pk "+ks+")) (and (select (select "+inH+" "+v.t+") q.pk) (= q.f "+target(el)+")))")
+				} else {
+					evalFail("pointees of %s: neither a slice nor a map", x.Args[0])
+				}
+			case "pointee":
+				v := pre.eval(x.Args[0])
+				if v.lv != nil {
+					root := v.lv
+					for root.kind == lvSub {
+						root = root.parent
+					}
+					add(root.heap, false, root.idx)
+				} else if v.sort == "Iface" {
+					add("*", false, "(ival "+v.t+")")
+				} else {
+					add("*", false, v.t)
+				}
 			case "map":
 				mv := pre.eval(x.Args[0])
 				ks, vs, _ := pre.mapSorts(mv)
@@ -549,6 +601,14 @@ func solveReport(rep *FnReport, opts solveOpts) {
 				to = 1500 * time.Millisecond
 			}
 			r := Solve(q, to, false)
+			if o.Invert && r.Status != "unsat" {
+				// the quantifier-free part alone may already be contradictory
+				if rq := fx.buildQueryMode(o, extra, true); rq != "" {
+					if r2 := Solve(rq, to, false); r2.Status == "unsat" {
+						r = r2
+					}
+				}
+			}
 			if o.Invert {
 				// satisfiable or unknown: fine; unsat: the assumptions are contradictory
 				if r.Status == "unsat" && o.PreLen > 0 {
